@@ -11,6 +11,7 @@ C11 driver.  One line = one fault script of a server batch plus what the real
 import ConfModel.Driver.Common
 import ConfModel.Driver.OSCmd
 import ConfModel.Driver.C11InProc
+import ConfModel.Driver.C11Wire
 import ConfModel.Spec.ServerRunner
 namespace ConfModel.Driver.C11
 open Lean ConfModel.Driver ConfModel.ServerRunner
@@ -49,6 +50,7 @@ def handle : Handler := fun op inp impl =>
   match op with
   | "oscmd" => ConfModel.Driver.OSCmd.judgeServer inp impl
   | "inproc" => ConfModel.Driver.C11InProc.handle inp impl
+  | "wire" => ConfModel.Driver.C11Wire.handle inp impl
   | "batch" =>
     let names := strList (field inp "names")
     let n := names.length
